@@ -3,6 +3,7 @@ from .common import *
 from .codewrite import *
 from . import patches
 
+PER_TARGET = True      # every rule below looks at one target configuration at a time (check.py may fork one worker per target)
 DECIDED = ("R10.1: in the public forced-boolean install root, every path that allocates or writes is dominated by a refusal test that depends "
            "on the signature recorded for the target and whose failing edge diverges first; R10.2: that test is not an affix/substring test of "
            "the whole signature text (refutable by a nested fn type such as `fn() -> fn() -> bool`): it must compare an extracted return type "
